@@ -43,7 +43,8 @@ WrongRegionClause(o, t, r) ==  \* the region is there but it is not the expected
 
 ClauseOcc(e) ==
     LET o == EffO(e)  t == e.t  r == e.res
-    IN IF r.k = "exc" THEN "C04.Total/occupancy_at_time"
+    IN IF r.k = "exc" THEN (IF "construct" \in DOMAIN e /\ Overlaps(o) THEN ""        \* refusing an overlapping prediction is fine
+                            ELSE "C04.Total/occupancy_at_time")
        ELSE IF Source(o, t).k = "None" THEN (IF r.k = "None" THEN "" ELSE "C04.Horizon/non-None-outside")
        ELSE IF r.k = "None" THEN "C04.Horizon/None-inside"
        ELSE IF IsUncertain(o, t) THEN
